@@ -37,6 +37,8 @@ SKELS = [
     dict(name="sz-multiatom-endgroups", text="{[][<]CC[>]; [<]OC, [>]NCC[]}|schulz_zimm(60,50)|", hi=70),
     dict(name="sz-copolymer", text="N{[<][<]CC[>], [<|2|]CO[>][>]}|schulz_zimm(60,50)|O", hi=60),
     dict(name="sz-two-blocks", text="N{[<][<]CC[>][>]}|schulz_zimm(60,50)|{[<][<]CO[>][>]}|schulz_zimm(70,50)|F", hi=45),
+    dict(name="sz-double-bond-between-descriptor-atoms", text="N{[<][<]C=C[>][>]}|schulz_zimm(60,50)|O", hi=66),
+    dict(name="sz-two-open-ends-two-endgroups", text="{[][<]CC(C[<])[>]; [>]O, [>]N, [<]F[]}|schulz_zimm(60,50)|", hi=45),
     dict(name="sz-branch-unit", text="N{[<][<]CC(C)[>][>]}|schulz_zimm(60,50)|[Si]", hi=80),
 ]
 
@@ -175,6 +177,9 @@ def run_case(case, g, tier, res):
         gen.DRAW_FN[0] = gen.symbolic_draw({}, skel["hi"])
         gen.OBS[0] = obs
         rng = SymRng(zero_threshold=1e-200)
+        from symx import npshim
+        grng = SymRng(zero_threshold=1e-200)
+        npshim.GLOBAL_RANDOM_HOOK[0] = grng
         sag = mol.gen_stochastic_atom_graph(True)
 
         def detail(label):
@@ -198,6 +203,7 @@ def run_case(case, g, tier, res):
         finally:
             gen.OBS[0] = None
         c.prove(len(ag.graph) <= 60, "unwinding bound", detail("graph grows beyond the bound"))
+        c.prove(len(grng.calls) + len(grng.other_calls) == 0, "only the supplied generator is used", detail("a random decision is drawn from numpy's global state instead of the supplied generator"))
         smi = analyse(P, sag.graph, ag.graph, ag.to_mol)
         # determinism: replay the same picks / draws concretely inside this path
         picks = [r.index for r in rng.calls]
@@ -229,12 +235,23 @@ def replay(rp, gb):
     rng = gendrive.ScriptedRng(rp["picks"])
     ag = gb.AtomGraph(sag, rng=rng)
     P = _CP()
+    import numpy as _np
+    used_global = []
+    saved = {}
+    for fn in ("choice", "random", "rand", "uniform"):
+        saved[fn] = getattr(_np.random, fn)
+        setattr(_np.random, fn, (lambda f, n: (lambda *a, **k: (used_global.append(n), f(*a, **k))[1]))(saved[fn], fn))
     try:
         ag.generate()
     except gendrive.ReplayDone:
-        return False, "scripted stream ended early"
+        return ("numpy's global state" in rp["label"] and bool(used_global)), f"scripted stream ended early; numpy.random legacy functions used: {used_global[:5]}"
     except Exception as e:
         return "raised" in rp["label"], f"generate raised {type(e).__name__}: {e}"
+    finally:
+        for fn, f in saved.items():
+            setattr(_np.random, fn, f)
+    if "numpy's global state" in rp["label"]:
+        return bool(used_global), f"numpy.random legacy functions used: {used_global[:5]}"
     smi = analyse(P, sag.graph, ag.graph, ag.to_mol)
     if rp["label"] == "equal streams give equal molecules":
         gen.DRAW_FN[0] = gen.scripted_draw(rp["targets"])
